@@ -253,6 +253,33 @@ Section LapEmbed.
 End LapEmbed.
 
 (* ---------------------------------------------------------------------- *)
+(*  REGRESSION VARIANT (not the shipped code; seeded change C09_3): the     *)
+(*  smallest-eigenvalues arm of generalized_eigendecomposition_impl_dense   *)
+(*  "skips the numerical null space":                                       *)
+(*     while (skip > 0 && skip + target_dimension < n_eigenvalues           *)
+(*            && solver.eigenvalues()[skip] < 1e-9) ++skip;                 *)
+(*  before  leftCols(target_dimension + skip).rightCols(target_dimension).  *)
+(*  The offset becomes a function of the eigenVALUES and of an ABSOLUTE     *)
+(*  threshold eps; ltb is the comparison of the scalar type.  fuel = N.     *)
+(* ---------------------------------------------------------------------- *)
+Section LapEmbedAbsEps.
+  Context {F : Type}.
+  Variable ltb : F -> F -> bool.
+  Fixpoint skip_while_small (lam : vec F) (eps : F) (N d fuel skip : nat) : nat :=
+    match fuel with
+    | 0 => skip
+    | S f => if Nat.ltb 0 skip && Nat.ltb (skip + d) N && ltb (lam skip) eps
+             then skip_while_small lam eps N d f (S skip) else skip
+    end.
+  Definition le_embedding_abs_eps (N d : nat) (V : mat F) (lam : vec F) (eps : F) : option (mat F) :=
+    match le_select N d with
+    | Some v => let skip := skip_while_small lam eps N d N (fst v) in
+                if Nat.leb (skip + d) N then Some (fun r c => V r (skip + c)) else None
+    | None => None
+    end.
+End LapEmbedAbsEps.
+
+(* ---------------------------------------------------------------------- *)
 (*  LaplacianEigenmaps::embed() as ONE function: neighbour search (oracle)  *)
 (*  -> compute_laplacian -> generalised solver (oracle: it is handed the    *)
 (*  sparse matrix and the diagonal D and answers eigenvectors/eigenvalues)  *)
